@@ -138,7 +138,7 @@ def final_check(run, cfg, out, st):
     t = tab.get(k) if k is not None and np.ndim(k) == 0 else None
     if t is None:
         out.append(V("xmin_eval_num-not-a-point", "soln.xmin_eval_num=%r is not a point number of the history (points 1..%s)" % (
-            k, max(tab.update()) if tab.update() else 0), xmin_eval_num=k, flag=s.flag, msg=s.msg))
+            k, max(tab.update()) if tab.update() else 0), xmin_eval_num=k, flag=s.flag, message=s.msg))
         return True
     slot_check("soln (xmin_eval_num=%d)" % k, t, np.asarray(s.x, dtype=float), np.asarray(s.resid, dtype=float), s.obj, None, b, cfg,
                "end of run [%s]" % s.msg[:50], out, st)
